@@ -8,6 +8,27 @@ open Conv
 
 exception Need of string
 
+(* hex <-> bytes for long strings (a 2 MiB field value is a 2M-element list): the 256 byte values
+   are shared, the hex text is built in a Buffer *)
+let ntab = Array.init 256 n_of_int
+let bytes_of_hex (s : string) : n list =
+  if s = "-" then [] else begin
+    let len = String.length s / 2 in
+    let rec go i acc = if i < 0 then acc else
+      go (i - 1) (ntab.(hexval s.[2*i] * 16 + hexval s.[2*i+1]) :: acc) in
+    go (len - 1) []
+  end
+let hexdig = "0123456789abcdef"
+let hex_of_bytes (b : n list) : string =
+  match b with
+  | [] -> "-"
+  | _ ->
+      let buf = Buffer.create 256 in
+      List.iter (fun x -> let v = int_of_n x in
+        if v > 255 then Buffer.add_string buf (Printf.sprintf "%02x" v)
+        else begin Buffer.add_char buf hexdig.[v lsr 4]; Buffer.add_char buf hexdig.[v land 15] end) b;
+      Buffer.contents buf
+
 let tbl : (string, string list) Hashtbl.t = Hashtbl.create 4096
 let h = hex_of_bytes
 let look (name : string) (args : string list) : string list =
@@ -108,6 +129,39 @@ let string_of_flist (l : flist) : string =
   String.concat "," (List.map (fun (n, v) -> Printf.sprintf "%s:%d:%s" (h n) (int_of_n v.v_kind) (h v.v_data)) l)
 let show_field ((n, v) : field) = Printf.sprintf "%s:%d:%s" (h n) (int_of_n v.v_kind) (h v.v_data)
 
+
+(* ---- packed field list ---- *)
+let fbcur : n list option ref = ref None
+
+(* data token: hex, or rep:<hexbyte>:<count> (count copies of one byte) *)
+let fb_data (tok : string) : n list =
+  match String.split_on_char ':' tok with
+  | ["rep"; b; c] -> let x = ntab.(int_of_string ("0x" ^ b)) in List.init (int_of_string c) (fun _ -> x)
+  | _ -> bytes_of_hex tok
+
+(* long byte strings are shown as D<length>:<hash>:<hash>:<first 16>:<last 16> (the harness does the same) *)
+let fb_digest (b : n list) : string =
+  let len = List.length b in
+  if len <= 2048 then h b else begin
+    let h1 = ref 7 and h2 = ref 11 in
+    List.iter (fun x -> let v = int_of_n x in
+      h1 := (!h1 * 257 + v) mod 2147483647; h2 := (!h2 * 263 + v) mod 1000000007) b;
+    let rec drop k l = if k <= 0 then l else match l with [] -> [] | _ :: r -> drop (k - 1) r in
+    let first = List.filteri (fun i _ -> i < 16) (List.filteri (fun i _ -> i < 16) b) in
+    Printf.sprintf "D%d:%d:%d:%s:%s" len !h1 !h2 (h first) (h (drop (len - 16) b))
+  end
+
+let fb_field ((n, v) : field) = Printf.sprintf "%s:%d:%s" (h n) (int_of_n v.v_kind) (fb_digest v.v_data)
+
+let fb_sn : snames = {
+  sn_store = (fun name -> match look "sstore" [h name] with [x] -> n_of_int (int_of_string x) | _ -> failwith "bad sstore");
+  sn_load = (fun k -> match look "sload" [string_of_z (Z.of_N k)] with
+                      | ["none"] -> None | [x] -> Some (bytes_of_hex x) | _ -> failwith "bad sload");
+}
+
+let fb_res (r : 'a res) (show : 'a -> string) : string =
+  match r with Val a -> "ok " ^ show a | Crash -> "panic" | Wild -> "wild" | NoFuel -> "fuel"
+
 let handle (toks : string list) : string =
   try
     match toks with
@@ -145,5 +199,21 @@ let handle (toks : string list) : string =
     | ["is_json_number"; s] -> bool_str (is_json_number (bytes_of_hex s))
     | ["write_err"; c; m] -> h (write_err (bytes_of_hex c) (bytes_of_hex m))
     | ["str_equals_ci"; a; b] -> bool_str (str_equals_ci (bytes_of_hex a) (bytes_of_hex b))
+    (* ---- packed field list (Model/FieldBin.v); the list under test is held here ---- *)
+    | ["fb_reset"] -> fbcur := None; "ok"
+    | ["fb_load"; raw] -> fbcur := (if raw = "nil" then None else Some (fb_data raw)); "ok"
+    | ["fb_raw"] -> (match !fbcur with None -> "nil" | Some b -> fb_digest b)
+    | ["fb_set"; peek; name; kind; data] ->
+        fb_res (bl_set (n_of_int (int_of_string peek)) fb_sn !fbcur
+                  (bytes_of_hex name, { v_kind = n_of_int (int_of_string kind); v_data = fb_data data }))
+          (fun p -> fbcur := p; (match p with None -> "nil" | Some b -> fb_digest b))
+    | ["fb_scan"; peek] ->
+        fb_res (bl_scan (n_of_int (int_of_string peek)) fb_sn !fbcur)
+          (fun l -> if l = [] then "." else String.concat "," (List.map fb_field l))
+    | ["fb_get"; peek; name] ->
+        fb_res (bl_get (n_of_int (int_of_string peek)) fb_sn forc !fbcur (bytes_of_hex name)) fb_field
+    | ["fb_len"; peek] -> fb_res (bl_len (n_of_int (int_of_string peek)) !fbcur) (fun k -> string_of_z (Z.of_N k))
+    | ["fb_weight"; peek] -> fb_res (weight (n_of_int (int_of_string peek)) !fbcur) (fun k -> string_of_z (Z.of_N k))
+    | ["fb_header"; x] -> h (put_uv (match z_of_string x with Zpos p -> Npos p | _ -> N0))
     | _ -> "?unknown"
   with Need k -> "?need " ^ k
